@@ -33,15 +33,23 @@ type tierCfg struct {
 	FuzzTime   time.Duration // native fuzzing per target (thorough only)
 }
 
-type propCfg struct {
+// part is one test function deciding (a facet of) a property; most properties have one.
+type part struct {
+	Name     string // "" for the only part; otherwise also the corpus sub-directory
 	Pkg      string
 	Test     string
 	Tags     string
 	Quick    tierCfg
 	Thorough tierCfg
-	Fuzz     []string // native fuzz targets (same package)
+	Fuzz     []string // native fuzz targets (same package), thorough tier only
 	Env      []string
 }
+
+type propCfg struct {
+	Parts []part
+}
+
+func one(p part) propCfg { return propCfg{Parts: []part{p}} }
 
 func root() string {
 	if r := os.Getenv("VERIF_ROOT"); r != "" {
@@ -93,20 +101,8 @@ func run() int {
 		fmt.Fprintf(os.Stderr, "unknown property %q\n", id)
 		return 2
 	}
-	tc := cfg.Quick
-	if *tier == "thorough" {
-		tc = cfg.Thorough
-	} else {
+	if *tier != "thorough" {
 		*tier = "quick"
-	}
-	if *casesOverride > 0 {
-		tc.Cases = *casesOverride
-	}
-	if *shardsOverride > 0 {
-		tc.Shards = *shardsOverride
-	}
-	if tc.Shards < 1 {
-		tc.Shards = 1
 	}
 	seed := int64(1)
 	if s := os.Getenv("VERIF_SEED"); s != "" {
@@ -128,71 +124,111 @@ func run() int {
 	}
 	defer os.RemoveAll(scratch)
 
-	// 1. Build the test binary against /repo's working tree.
-	bin := filepath.Join(scratch, "prop.test")
-	args := []string{"test", "-c", "-o", bin}
-	if cfg.Tags != "" {
-		args = append(args, "-tags", cfg.Tags)
-	}
-	args = append(args, cfg.Pkg)
-	build := exec.Command("go", args...)
-	build.Dir = R
-	build.Env = goEnv()
-	if out, err := build.CombinedOutput(); err != nil {
-		fmt.Printf("INCONCLUSIVE: property=%s harness build failed against the current tree:\n%s\n", id, tail(string(out), 4000))
-		return 2
-	}
-
 	type shardRes struct {
 		shard    *ev.Shard
 		exit     int
 		timedOut bool
 		out      string
+		label    string
+		timeout  time.Duration
+		part     int
 	}
-	runShard := func(i int, env []string, cases int, sd uint64, timeout time.Duration) shardRes {
-		outFile := filepath.Join(scratch, fmt.Sprintf("shard%d.json", i))
-		ctx, cancel := context.WithTimeout(context.Background(), timeout)
-		defer cancel()
-		cmd := exec.CommandContext(ctx, bin,
-			"-test.run", "^"+cfg.Test+"$", "-test.timeout", "0", "-test.count", "1",
-			"-rapid.checks", strconv.Itoa(cases), "-rapid.seed", strconv.FormatUint(sd, 10),
-			"-rapid.nofailfile", "-rapid.shrinktime", tc.ShrinkTime.String())
-		cmd.Dir = filepath.Join(R, strings.TrimPrefix(cfg.Pkg, "./"))
-		shardScratch := filepath.Join(scratch, fmt.Sprintf("s%d", i))
-		_ = os.MkdirAll(shardScratch, 0o755)
-		cmd.Env = goEnv(append(append([]string{
-			"VERIF_OUT=" + outFile, "VERIF_ROOT=" + R, "VERIF_SCRATCH=" + shardScratch,
-			"VERIF_TIER=" + *tier, "VERIF_SHARD=" + strconv.Itoa(i), "VERIF_PROPERTY=" + id,
-		}, cfg.Env...), env...)...)
-		var buf bytes.Buffer
-		cmd.Stdout, cmd.Stderr = &buf, &buf
-		cmd.WaitDelay = 5 * time.Second
-		err := cmd.Run()
-		res := shardRes{out: buf.String()}
-		if ctx.Err() == context.DeadlineExceeded {
-			res.timedOut = true
-		}
-		if err != nil {
-			res.exit = 1
-			if ee, ok := err.(*exec.ExitError); ok {
-				res.exit = ee.ExitCode()
+	var results []shardRes
+
+	// Which part does a replay file belong to?
+	replayPart := ""
+	replayAbs := ""
+	if *replay != "" {
+		replayAbs, _ = filepath.Abs(*replay)
+		if b, err := os.ReadFile(replayAbs); err == nil {
+			var rf struct {
+				Part string `json:"part"`
 			}
+			_ = json.Unmarshal(b, &rf)
+			replayPart = rf.Part
 		}
-		if b, err := os.ReadFile(outFile); err == nil {
-			var s ev.Shard
-			if json.Unmarshal(b, &s) == nil {
-				res.shard = &s
-			}
-		}
-		return res
 	}
 
-	var results []shardRes
-	if *replay != "" {
-		abs, _ := filepath.Abs(*replay)
-		results = append(results, runShard(0, []string{"VERIF_REPLAY=" + abs}, 1, 1, tc.Timeout))
-	} else {
-		results = make([]shardRes, tc.Shards)
+	for pi, pt := range cfg.Parts {
+		if *replay != "" && pt.Name != replayPart {
+			continue
+		}
+		tc := pt.Quick
+		if *tier == "thorough" {
+			tc = pt.Thorough
+		}
+		if *casesOverride > 0 {
+			tc.Cases = *casesOverride
+		}
+		if *shardsOverride > 0 {
+			tc.Shards = *shardsOverride
+		}
+		if tc.Shards < 1 {
+			tc.Shards = 1
+		}
+		if tc.Cases == 0 && *replay == "" {
+			continue // part not run in this tier
+		}
+
+		// Build the part's test binary against /repo's working tree.
+		bin := filepath.Join(scratch, fmt.Sprintf("part%d.test", pi))
+		args := []string{"test", "-c", "-o", bin}
+		if pt.Tags != "" {
+			args = append(args, "-tags", pt.Tags)
+		}
+		args = append(args, pt.Pkg)
+		build := exec.Command("go", args...)
+		build.Dir = R
+		build.Env = goEnv()
+		if out, err := build.CombinedOutput(); err != nil {
+			fmt.Printf("INCONCLUSIVE: property=%s harness build failed against the current tree:\n%s\n", id, tail(string(out), 4000))
+			return 2
+		}
+
+		runShard := func(i int, env []string, cases int, sd uint64, timeout time.Duration) shardRes {
+			outFile := filepath.Join(scratch, fmt.Sprintf("part%d-shard%d.json", pi, i))
+			ctx, cancel := context.WithTimeout(context.Background(), timeout)
+			defer cancel()
+			cmd := exec.CommandContext(ctx, bin,
+				"-test.run", "^"+pt.Test+"$", "-test.timeout", "0", "-test.count", "1",
+				"-rapid.checks", strconv.Itoa(cases), "-rapid.seed", strconv.FormatUint(sd, 10),
+				"-rapid.nofailfile", "-rapid.shrinktime", tc.ShrinkTime.String())
+			cmd.Dir = filepath.Join(R, strings.TrimPrefix(pt.Pkg, "./"))
+			shardScratch := filepath.Join(scratch, fmt.Sprintf("p%ds%d", pi, i))
+			_ = os.MkdirAll(shardScratch, 0o755)
+			cmd.Env = goEnv(append(append([]string{
+				"VERIF_OUT=" + outFile, "VERIF_ROOT=" + R, "VERIF_SCRATCH=" + shardScratch,
+				"VERIF_TIER=" + *tier, "VERIF_SHARD=" + strconv.Itoa(i), "VERIF_PROPERTY=" + id, "VERIF_PART=" + pt.Name,
+				"VERIF_CASES=" + strconv.Itoa(cases), "VERIF_RSEED=" + strconv.FormatUint(sd, 10), "TMPDIR=" + shardScratch,
+			}, pt.Env...), env...)...)
+			var buf bytes.Buffer
+			cmd.Stdout, cmd.Stderr = &buf, &buf
+			cmd.WaitDelay = 5 * time.Second
+			err := cmd.Run()
+			res := shardRes{out: buf.String(), label: fmt.Sprintf("%s/%d", pt.Test, i), timeout: timeout, part: pi}
+			if ctx.Err() == context.DeadlineExceeded {
+				res.timedOut = true
+			}
+			if err != nil {
+				res.exit = 1
+				if ee, ok := err.(*exec.ExitError); ok {
+					res.exit = ee.ExitCode()
+				}
+			}
+			if b, err := os.ReadFile(outFile); err == nil {
+				var s ev.Shard
+				if json.Unmarshal(b, &s) == nil {
+					res.shard = &s
+				}
+			}
+			return res
+		}
+
+		if *replay != "" {
+			results = append(results, runShard(0, []string{"VERIF_REPLAY=" + replayAbs}, 1, 1, tc.Timeout))
+			continue
+		}
+		partResults := make([]shardRes, tc.Shards)
 		var wg sync.WaitGroup
 		per := (tc.Cases + tc.Shards - 1) / tc.Shards
 		for i := 0; i < tc.Shards; i++ {
@@ -201,13 +237,18 @@ func run() int {
 				defer wg.Done()
 				env := []string{}
 				if i == 0 {
-					env = append(env, "VERIF_CORPUS="+filepath.Join(R, "corpus", id))
+					env = append(env, "VERIF_CORPUS="+filepath.Join(R, "corpus", id, pt.Name))
 				}
-				sd := rapidBase*1000003 + uint64(i)*7919 + 1
-				results[i] = runShard(i, env, per, sd, tc.Timeout)
+				sd := rapidBase*1000003 + uint64(i)*7919 + uint64(pi)*104729 + 1
+				partResults[i] = runShard(i, env, per, sd, tc.Timeout)
 			}(i)
 		}
 		wg.Wait()
+		results = append(results, partResults...)
+	}
+	if len(results) == 0 {
+		fmt.Printf("INCONCLUSIVE: property=%s nothing was run\n", id)
+		return 2
 	}
 
 	// 2. Merge.
@@ -215,20 +256,20 @@ func run() int {
 		KnownText: map[string]string{}, Floors: map[string]float64{}, Extra: map[string]any{}}
 	hashes := map[uint64]struct{}{}
 	inconclusive := []string{}
-	for i, r := range results {
+	for _, r := range results {
 		if *verbose || (r.exit != 0 && (r.shard == nil || len(r.shard.Violations) == 0)) {
-			fmt.Printf("---- shard %d output (exit %d) ----\n%s\n", i, r.exit, tail(r.out, 6000))
+			fmt.Printf("---- shard %s output (exit %d) ----\n%s\n", r.label, r.exit, tail(r.out, 6000))
 		}
 		if r.timedOut {
-			inconclusive = append(inconclusive, fmt.Sprintf("shard %d exceeded the harness time limit %s", i, tc.Timeout))
+			inconclusive = append(inconclusive, fmt.Sprintf("shard %s exceeded the harness time limit %s", r.label, r.timeout))
 		}
 		if r.shard == nil {
-			inconclusive = append(inconclusive, fmt.Sprintf("shard %d wrote no evidence (exit %d)", i, r.exit))
+			inconclusive = append(inconclusive, fmt.Sprintf("shard %s wrote no evidence (exit %d)", r.label, r.exit))
 			continue
 		}
 		s := r.shard
 		if r.exit != 0 && len(s.Violations) == 0 && !r.timedOut {
-			inconclusive = append(inconclusive, fmt.Sprintf("shard %d failed (exit %d) without recording a violation", i, r.exit))
+			inconclusive = append(inconclusive, fmt.Sprintf("shard %s failed (exit %d) without recording a violation", r.label, r.exit))
 		}
 		merged.Evaluations += s.Evaluations
 		merged.CorpusReplayed += s.CorpusReplayed
@@ -261,7 +302,7 @@ func run() int {
 		}
 		if len(merged.Samples) < 6 {
 			n := 6 - len(merged.Samples)
-			if tc.Shards > 1 && n > 2 {
+			if len(results) > 1 && n > 2 {
 				n = 2
 			}
 			if n > len(s.Samples) {
@@ -271,19 +312,51 @@ func run() int {
 		}
 		merged.Violations = append(merged.Violations, s.Violations...)
 		merged.Inconclusive = append(merged.Inconclusive, s.Inconclusive...)
-		if merged.Rule == "" {
-			merged.Rule, merged.Assumptions = s.Rule, s.Assumptions
+		if s.Rule != "" && !strings.Contains(merged.Rule, s.Rule) {
+			if merged.Rule != "" {
+				merged.Rule += " || "
+			}
+			merged.Rule += s.Rule
+			merged.Assumptions = append(merged.Assumptions, s.Assumptions...)
 		}
 	}
 	inconclusive = append(inconclusive, merged.Inconclusive...)
 
-	// Generator health: a label the non-trivial rule depends on must not starve.
-	genEvals := merged.Evaluations - merged.CorpusReplayed
-	if *replay == "" && genEvals > 0 && len(merged.Violations) == 0 {
-		for label, floor := range merged.Floors {
-			frac := float64(merged.Labels[label]) / float64(merged.Evaluations)
-			if frac < floor {
-				inconclusive = append(inconclusive, fmt.Sprintf("generator starving: label %q at %.3f < floor %.3f", label, frac, floor))
+	// Generator health, per part: a label the non-trivial rule depends on must not starve.
+	if *replay == "" && len(merged.Violations) == 0 {
+		type agg struct {
+			evals, corpus int
+			labels        map[string]int
+			floors        map[string]float64
+		}
+		per := map[int]*agg{}
+		for _, r := range results {
+			if r.shard == nil {
+				continue
+			}
+			a := per[r.part]
+			if a == nil {
+				a = &agg{labels: map[string]int{}, floors: map[string]float64{}}
+				per[r.part] = a
+			}
+			a.evals += r.shard.Evaluations
+			a.corpus += r.shard.CorpusReplayed
+			for k, v := range r.shard.Labels {
+				a.labels[k] += v
+			}
+			for k, v := range r.shard.Floors {
+				a.floors[k] = v
+			}
+		}
+		for pi, a := range per {
+			if a.evals-a.corpus <= 0 {
+				continue
+			}
+			for label, floor := range a.floors {
+				frac := float64(a.labels[label]) / float64(a.evals)
+				if frac < floor {
+					inconclusive = append(inconclusive, fmt.Sprintf("generator starving in %s: label %q at %.3f < floor %.3f", cfg.Parts[pi].Test, label, frac, floor))
+				}
 			}
 		}
 	}
@@ -354,7 +427,7 @@ func run() int {
 				continue
 			}
 			seen[v.Replay] = true
-			fmt.Printf("  %s: %s\n", v.Signature, tail(v.Message, 1500))
+			fmt.Printf("  %s: %s\n", v.Signature, head(v.Message, 1500))
 			fmt.Printf("VIOLATION property=%s replay=%s\n", id, v.Replay)
 		}
 		return 1
@@ -380,4 +453,11 @@ func tail(s string, n int) string {
 		return s
 	}
 	return "…" + s[len(s)-n:]
+}
+
+func head(s string, n int) string {
+	if len(s) <= n {
+		return s
+	}
+	return s[:n] + "…"
 }
